@@ -324,6 +324,28 @@ m("c18_wrap_render_empty_shortcut", "C18", r"C18\.WRAP:vm::interpreter::VirtualM
         }
         let mut output = Vec::with_capacity(self.template.size_hint());
         self.render_to(None, context, global_context, &mut output)?;""")
+# ---------------------------------------------------------------- round 7
+m("c05_prio_override_keeps_priority", "C05", r"C05\.PRIO:table:pairs-of-one-template", "an overriding definition is stored with the priority of the one it replaces",
+  "tera/src/tera.rs", """                            // Current has higher priority (lower number), override
+                            component_sources.insert(component_name, (&tpl.name, current_priority));""", """                            // Current has higher priority (lower number), override
+                            component_sources.insert(component_name, (&tpl.name, existing_priority));""")
+m("c05_prio_override_on_le", "C05", r"C05\.PRIO:table:pairs-of-one-template", "equal priority overrides instead of being the duplicate error",
+  "tera/src/tera.rs", "                        if current_priority < existing_priority {", "                        if current_priority <= existing_priority {")
+m("c04_current_block_not_restored_on_capture", "C04", r"C04\.VM:RenderBlock:current-block-saved-and-restored", "the enclosing block's name is put back only when the block was not the captured one",
+  "tera/src/vm/interpreter.rs", """                    state.current_block_name = old_block_name;
+                    state.blocks.pop();""", """                    if state.capture_block != Some(block_name.as_str()) {
+                        state.current_block_name = old_block_name;
+                    }
+                    state.blocks.pop();""")
+m("c01_esc_bulk_copy_ascii_alnum", "C01", r"C01\.ESC:default:raw-write#\d", "escape_html copies the input in one write when it has no & and no <",
+  "tera/src/utils.rs", """        for c in input.as_bytes() {
+            match c {
+                b'&' => buf.write_all(b"&amp;")?,""", """        if !input.contains('&') && !input.contains('<') {
+            return buf.write_all(input.as_bytes());
+        }
+        for c in input.as_bytes() {
+            match c {
+                b'&' => buf.write_all(b"&amp;")?,""")
 # ---------------------------------------------------------------- C05
 m("c05_iso_global", "C05", r"C05\.ISO:writer:global_context", "render_component gives the component the global context",
   "tera/src/vm/interpreter.rs", """        let mut state = State::new_with_chunk(&context, chunk);
